@@ -720,4 +720,40 @@ Definition check (scr : list nat) (pan : list (nat * nat)) (evs : list ev) : lis
   if m_dropped m && negb (forallb (fun k => mem_nat k (m_exited m)) (seq 1 (m_spawned m)))
   then F_exit :: f1 else f1.
 
+(** ** The event trace induced by a model execution
+
+    The same translation, read from right to left, is what ocaml/pool.ml applies
+    to the implementation's tokens (B N S* = EBegin; Q/R = ESend; C = ERun0/EWRun;
+    H = EWClone; D = EWDec; U = EWUnpark; L = ELoad; P/W = EPark/ESpurious; T or Z
+    after the last load = the return; X = EDrop; R(err) E = EWExit). *)
+
+Definition events_of (c : PoolM.cfg) (s : PoolM.state) (l : PoolM.label) : list ev :=
+  match l with
+  | PoolM.EBegin n =>
+      VBcast n :: VNew n
+      :: map VSpawn (seq (S (length (PoolM.ws s))) (n - length (PoolM.ws s)))
+  | PoolM.ESend k => [VSent k; VRecv k k true]
+  | PoolM.ERun0 p => [VCall 0 0 p]
+  | PoolM.ELoad => VLoad (PoolM.rc s) :: (if PoolM.leave c s then [VRet (PoolM.slots s)] else [])
+  | PoolM.EPark => VPark :: (if PoolM.c_loop c then [] else [VRet (PoolM.slots s)])
+  | PoolM.ESpurious => VSpur :: (if PoolM.c_loop c then [] else [VRet (PoolM.slots s)])
+  | PoolM.EWRun k p => [VCall k k p]
+  | PoolM.EWClone k => [VClone k true]
+  | PoolM.EWDec k => [VDec k (PoolM.rc s)]
+  | PoolM.EWUnpark k => [VUnpark k false]
+  | PoolM.EDrop => [VDrop]
+  | PoolM.EWExit k => [VRecv k k false; VExit k]
+  end.
+
+Fixpoint trace (c : PoolM.cfg) (s : PoolM.state) (ls : list PoolM.label) : list ev :=
+  match ls with
+  | [] => []
+  | l :: rest =>
+      events_of c s l ++ match PoolM.step c s l with Some s' => trace c s' rest | None => [] end
+  end.
+
+(** The inline clauses violated so far (every prefix of a trace). *)
+Definition violations (pan : list (nat * nat)) (evs : list ev) : list nat :=
+  m_fail (fold_left (mstep pan) evs mon0).
+
 End PoolMon.
